@@ -347,6 +347,9 @@ mod has_more;
 /// Module defining concurrent iterator traits and implementations.
 pub mod iter;
 mod next;
+#[cfg(orx_concurrent_iter_verif)]
+#[doc(hidden)]
+pub mod verif_hooks;
 
 pub use has_more::HasMore;
 pub use iter::atomic_counter::AtomicCounter;
